@@ -113,6 +113,8 @@ ToStep(ev) ==
              THEN [exportOk |-> ev.obs.x.exportOk, validateOk |-> ev.obs.x.validateOk, initOk |-> ev.obs.x.initOk,
                    sameExport |-> ev.obs.x.sameExport, fullOk |-> ev.obs.x.fullOk]
              ELSE DummyX,
+       hasBig |-> HasX(ev, "big"),
+       big |-> IF HasX(ev, "big") THEN ev.obs.x.big ELSE [esc |-> <<0>>, orb |-> <<0>>, dust |-> <<0>>, F1 |-> <<0>>, F2 |-> <<0>>, U |-> <<0>>],
        hasDiff |-> HasXAny(ev, "diff"),
        diff |-> IF HasXAny(ev, "diff")
                 THEN [ackEq |-> ev.obs.x.diff.ackEq, eventsEq |-> ev.obs.x.diff.eventsEq, stateEq |-> ev.obs.x.diff.stateEq,
@@ -167,8 +169,8 @@ Mismatch_(ev, S) ==
                              ELSE FALSE }
 
 PropHolds(c, S) ==
-  CASE c = "C01" -> Prop_C01(S) [] c = "C02" -> Prop_C02(S) [] c = "C03" -> Prop_C03(S)
-    [] c = "C04" -> Prop_C04(S) [] c = "C05" -> Prop_C05(S) [] c = "C06" -> Prop_C06(S) [] c = "C08" -> Prop_C08(S)
+  CASE c = "C01" -> Prop_C01(S) [] c = "C02" -> Prop_C02(S) /\ Prop_C02big(S) [] c = "C03" -> Prop_C03(S)
+    [] c = "C04" -> Prop_C04(S) /\ Prop_C04big(S) [] c = "C05" -> Prop_C05(S) [] c = "C06" -> Prop_C06(S) [] c = "C08" -> Prop_C08(S)
     [] c = "C09" -> Prop_C09(S) [] c = "C10" -> Prop_C10(S) [] c = "C11" -> Prop_C11(S)
     [] c = "C07" -> Prop_C07(S) [] c = "C13" -> Prop_C13(S) [] c = "C19" -> Prop_C19(S)
     [] c = "C14" -> Prop_C14(S) [] c = "C15" -> Prop_C15(S) [] c = "C16" -> Prop_C16(S) [] c = "C20" -> Prop_C20(S) [] c = "C17b" -> Prop_C17b(S) [] c = "C17c" -> Prop_C17c(S) [] c = "C12" -> Prop_C12(S) [] c = "C17" -> Prop_C17(S) [] c = "C18" -> Prop_C18(S)
@@ -179,8 +181,9 @@ Ante(S) ==
   {c \in PropIds :
      CASE c = "C01" -> IsRecv(S)
        [] c = "C03" -> IsRecv(S) /\ (S.fired # {} \/ ~S.ok)
-       [] c \in {"C02", "C12"} -> IsTransfer(S)
-       [] c = "C04" -> HasFee(S)
+       [] c = "C02" -> IsTransfer(S) \/ (IsBig(S) /\ S.ok)
+       [] c = "C12" -> IsTransfer(S)
+       [] c = "C04" -> HasFee(S) \/ (IsBig(S) /\ FeeActs(S) # {})
        [] c = "C05" -> IsTransfer(S) \/ (IsOrbiterPacket(S) /\ S.in.mk = "PAYLOAD" /\ (Unrouted(S.in) \/ Mismatch(S.in)))
        [] c = "C06" -> (HasActions(S) /\ S.hasTrace) \/ (IsOrbiterPacket(S) /\ S.in.mk = "PAYLOAD" /\ ParseOK(S.in) /\ RepeatsAction(S.in))
        [] c = "C08" -> (HasPayload(S) /\ (S.pre.pProto # {} \/ S.pre.pCC # {})) \/ IsPauseMsg(S)
